@@ -41,6 +41,7 @@ type c06Op struct {
 }
 
 type c06Case struct {
+	Log string `json:"nas_log_level,omitempty"` // logrus level of the NAS library's logger during the history ("" = default)
 	Enc     []byte  `json:"knas_enc"`
 	Int     []byte  `json:"knas_int"`
 	EA      uint8   `json:"ea"` // 0..2
@@ -99,6 +100,7 @@ func genC06N(maxOps int) func(t *rapid.T) c06Case {
 		}
 		// the history is one rapid slice value: rapid can drop and simplify single operations when shrinking
 		c.Ops = rapid.SliceOfN(rapid.Custom(genC06Op), 1, maxOps).Draw(t, "ops")
+		c.Log = rapid.SampledFrom(logLevels).Draw(t, "nas_log_level")
 		return c
 	}
 }
@@ -137,6 +139,17 @@ func c06MacKey(ctx refsec.Ctx, count uint32, pdu []byte) string {
 }
 
 func c06Oracle(c c06Case) (v ev.Verdict) {
+	withNASLogLevel(c.Log, func() { v = c06Oracle0(c) })
+	if c.Log != "" {
+		v.Classes = append(v.Classes, "nas-log-level:"+c.Log)
+		if v.Err != nil {
+			v.Key = "loglevel-" + c.Log + ":" + v.Key
+		}
+	}
+	return v
+}
+
+func c06Oracle0(c c06Case) (v ev.Verdict) {
 	if len(c.Enc) != 16 || len(c.Int) != 16 || c.EA > 2 || c.IA < 1 || c.IA > 2 || c.StartUL > 0xffffff || c.StartDL > 0xffffff {
 		v.Skip = true
 		return v
